@@ -22,7 +22,7 @@ use proptest::prelude::*;
 use serde::{Deserialize, Serialize};
 use sozu_command_lib::{
     proto::command::{
-        ActivateListener, DeactivateListener, ListenerType, LoadBalancingAlgorithms, RemoveBackend, RemoveListener, RequestUdpFrontend, ResponseStatus, UdpAffinityKey, UdpClusterConfig, UdpListenerConfig,
+        ActivateListener, Cluster, DeactivateListener, ListenerType, LoadBalancingAlgorithms, RemoveBackend, RemoveListener, RequestUdpFrontend, ResponseStatus, UdpAffinityKey, UdpClusterConfig, UdpListenerConfig,
         request::RequestType,
     },
     scm_socket::Listeners,
@@ -113,6 +113,12 @@ pub struct Case {
     /// the listener first.
     #[serde(default)]
     pub unroute_live: bool,
+    /// order in which the worker learns the configuration (the final state is the same):
+    /// 0 cluster, frontend, backends (as sozu's own tests); 1 frontend, cluster, backends;
+    /// 2 cluster with other `udp` settings, frontend, backends, then the cluster again with the
+    /// case's settings (an update of a cluster in service)
+    #[serde(default)]
+    pub config_order: u8,
 }
 
 fn dg() -> impl Strategy<Value = Dg> {
@@ -166,6 +172,7 @@ pub fn strategy() -> impl Strategy<Value = Case> {
                 steps,
                 strict: false,
                 unroute_live: false,
+                config_order: ((seed >> 17) % 3) as u8,
             }
         })
 }
@@ -634,25 +641,66 @@ fn drive(lab: &mut UdpLab, case: &Case) -> Result<Observed, Failure> {
         active: false,
     }));
     w.must(RequestType::ActivateListener(ActivateListener { address: front.into(), proxy: ListenerType::Udp.into(), from_scm: false }));
-    w.add_cluster(&cluster, |c| {
+    let lb_of = |c: &mut Cluster| {
         c.load_balancing = match case.lb % 4 {
             0 => LoadBalancingAlgorithms::RoundRobin,
             1 => LoadBalancingAlgorithms::Hrw,
             2 => LoadBalancingAlgorithms::Maglev,
             _ => LoadBalancingAlgorithms::Random,
         } as i32;
-        c.udp = Some(UdpClusterConfig {
-            affinity_key: Some(if case.with_port { UdpAffinityKey::SourceIpPort } else { UdpAffinityKey::SourceIp } as i32),
-            responses: Some(case.responses),
-            requests: Some(case.requests),
-            send_proxy_protocol: Some(case.ppv2),
-            proxy_protocol_every_datagram: Some(case.every),
-            health: None,
-        });
-    });
-    w.must(RequestType::AddUdpFrontend(RequestUdpFrontend { cluster_id: cluster.clone(), address: front.into(), ..Default::default() }));
-    for (k, addr) in backend_addrs.iter().enumerate() {
-        w.add_backend(&cluster, &format!("{cluster}-{k}"), *addr);
+    };
+    let final_udp = UdpClusterConfig {
+        affinity_key: Some(if case.with_port { UdpAffinityKey::SourceIpPort } else { UdpAffinityKey::SourceIp } as i32),
+        responses: Some(case.responses),
+        requests: Some(case.requests),
+        send_proxy_protocol: Some(case.ppv2),
+        proxy_protocol_every_datagram: Some(case.every),
+        health: None,
+    };
+    // the settings a cluster in service had before its update: every knob differs from the final one
+    let earlier_udp = UdpClusterConfig {
+        affinity_key: Some(if case.with_port { UdpAffinityKey::SourceIp } else { UdpAffinityKey::SourceIpPort } as i32),
+        responses: Some(if case.responses == 1 { 0 } else { 1 }),
+        requests: Some(if case.requests == 1 { 0 } else { 1 }),
+        send_proxy_protocol: Some(!case.ppv2),
+        proxy_protocol_every_datagram: Some(!case.every),
+        health: None,
+    };
+    let add_frontend = |w: &mut LabWorker| w.must(RequestType::AddUdpFrontend(RequestUdpFrontend { cluster_id: cluster.clone(), address: front.into(), ..Default::default() }));
+    let add_backends = |w: &mut LabWorker| {
+        for (k, addr) in backend_addrs.iter().enumerate() {
+            w.add_backend(&cluster, &format!("{cluster}-{k}"), *addr);
+        }
+    };
+    match case.config_order {
+        1 => {
+            add_frontend(w);
+            w.add_cluster(&cluster, |c| {
+                lb_of(c);
+                c.udp = Some(final_udp.clone());
+            });
+            add_backends(w);
+        }
+        2 => {
+            w.add_cluster(&cluster, |c| {
+                lb_of(c);
+                c.udp = Some(earlier_udp.clone());
+            });
+            add_frontend(w);
+            add_backends(w);
+            w.add_cluster(&cluster, |c| {
+                lb_of(c);
+                c.udp = Some(final_udp.clone());
+            });
+        }
+        _ => {
+            w.add_cluster(&cluster, |c| {
+                lb_of(c);
+                c.udp = Some(final_udp.clone());
+            });
+            add_frontend(w);
+            add_backends(w);
+        }
     }
 
     // ---- the schedule
@@ -1160,6 +1208,8 @@ fn judge(case: &Case, o: &Observed) -> CheckResult {
     rep.class_if(o.probes_done && o.replies.iter().any(|r| r.tag == b'Z'), "late_backend_datagram_to_expired_flow");
     rep.class_if(case.ppv2 && lives.iter().any(|l| l.dgs.iter().any(|d| d.2)), "proxy_protocol");
     rep.class_if(case.ppv2 && case.every, "proxy_protocol_every_datagram");
+    rep.class_if(case.config_order == 1, "frontend_added_before_cluster");
+    rep.class_if(case.config_order == 2, "cluster_settings_updated_in_service");
     rep.class_if(case.requests == 1, "requests_cap_1");
     rep.class_if(case.requests > 1, "requests_cap_3");
     rep.class_if(case.responses > 0, "responses_cap");
@@ -1219,7 +1269,7 @@ fn adjacency(case: &Case, sent: &[Sent]) -> (bool, bool) {
 }
 
 pub fn rule() -> &'static str {
-    "a live worker with one UDP listener (front/back idle timeouts 1 s / 2 s or 2 s / 1 s, max_rx_datagram_size 1500 or 65507, max_flows automatic or 2..4), one UDP cluster (round robin / HRW / Maglev / random; affinity by source IP or IP+port; requests cap 0/1/3, responses cap 0/1/2, PROXY v2 prefix off / first datagram / every datagram) and 2..3 mock UDP backends on real loopback sockets; 2..6 clients, each its own socket on its own 127.0.0.x address, send keyed datagrams (first byte = client and sequence number, then keyed bytes; 1..1400 bytes, some empty, at the receive limit, above it, near 64 KiB) in bursts written back-to-back by one thread, clients mixed, later bursts bringing clients that have not spoken yet (a new flow's first datagram next to a datagram of an established flow), pauses of 1..300 ms, and (60%) one silence of max(front, back) + 1.5 s after which every backend sends a datagram to each upstream address it has seen and the clients speak again. Each backend records (source address = the proxy's upstream socket, bytes) of every datagram and answers by plan: 0..2 immediate replies 'B<k>:<n>' + payload, optionally one more 30..400 ms later. Oracle, from what backends and clients saw: every datagram at a backend is byte-identical to one a client sent (own PROXY v2 reader: well-formed DGRAM/IPv4 header, source = the client's real address, destination = the listener; present exactly on the first datagram of an upstream socket, or on every one), at most once, in sending order per upstream socket, never one above the receive limit; one upstream socket carries datagrams of one client only ; a client moves to another upstream socket only when the requests cap was reached, the backend had sent `responses` replies before, or the client had been silent (measured) for the shorter idle timeout - 250 ms; never more datagrams per upstream socket than the requests cap, never more replies returned per upstream socket than the responses cap; max_flows: never more upstream sockets in use at once than the cap (each between the first and the last datagram it carried, in the order the single writer thread wrote the datagrams, which is the order sozu handles them), and with no other cap and a phase shorter than the idle timeouts exactly min(cap, clients) sockets, the admitted clients keep being served; after the silence no datagram leaves through an old upstream socket and the backends' late datagrams reach no client; every datagram a client receives comes from the listener's address, is a reply the backend of its own flow sent to one of its own datagrams, intact, at most once, in the order sent; more than 20% of the datagrams (or, without caps, replies) missing is a failure, less is UDP; the worker is alive. A failure is re-run twice on a fresh worker and reported only if it reproduces. Non-trivial: datagrams of >= 2 clients forwarded and a burst that mixes clients."
+    "a live worker with one UDP listener (front/back idle timeouts 1 s / 2 s or 2 s / 1 s, max_rx_datagram_size 1500 or 65507, max_flows automatic or 2..4), one UDP cluster (round robin / HRW / Maglev / random; affinity by source IP or IP+port; requests cap 0/1/3, responses cap 0/1/2, PROXY v2 prefix off / first datagram / every datagram) and 2..3 mock UDP backends on real loopback sockets; the configuration reaches the worker in one of three orders with the same final state (cluster, frontend, backends; frontend before cluster; cluster with every `udp` setting different, frontend, backends, then the cluster again with the final settings); 2..6 clients, each its own socket on its own 127.0.0.x address, send keyed datagrams (first byte = client and sequence number, then keyed bytes; 1..1400 bytes, some empty, at the receive limit, above it, near 64 KiB) in bursts written back-to-back by one thread, clients mixed, later bursts bringing clients that have not spoken yet (a new flow's first datagram next to a datagram of an established flow), pauses of 1..300 ms, and (60%) one silence of max(front, back) + 1.5 s after which every backend sends a datagram to each upstream address it has seen and the clients speak again. Each backend records (source address = the proxy's upstream socket, bytes) of every datagram and answers by plan: 0..2 immediate replies 'B<k>:<n>' + payload, optionally one more 30..400 ms later. Oracle, from what backends and clients saw: every datagram at a backend is byte-identical to one a client sent (own PROXY v2 reader: well-formed DGRAM/IPv4 header, source = the client's real address, destination = the listener; present exactly on the first datagram of an upstream socket, or on every one), at most once, in sending order per upstream socket, never one above the receive limit; one upstream socket carries datagrams of one client only ; a client moves to another upstream socket only when the requests cap was reached, the backend had sent `responses` replies before, or the client had been silent (measured) for the shorter idle timeout - 250 ms; never more datagrams per upstream socket than the requests cap, never more replies returned per upstream socket than the responses cap; max_flows: never more upstream sockets in use at once than the cap (each between the first and the last datagram it carried, in the order the single writer thread wrote the datagrams, which is the order sozu handles them), and with no other cap and a phase shorter than the idle timeouts exactly min(cap, clients) sockets, the admitted clients keep being served; after the silence no datagram leaves through an old upstream socket and the backends' late datagrams reach no client; every datagram a client receives comes from the listener's address, is a reply the backend of its own flow sent to one of its own datagrams, intact, at most once, in the order sent; more than 20% of the datagrams (or, without caps, replies) missing is a failure, less is UDP; the worker is alive. A failure is re-run twice on a fresh worker and reported only if it reproduces. Non-trivial: datagrams of >= 2 clients forwarded and a burst that mixes clients."
 }
 
 /// child-process entry: run this shard's scenarios
